@@ -20,6 +20,7 @@ pub fn prop() -> Prop {
         subs: vec![
             Sub::tape("items", 300, 150_000, 7_500_000, |d, cx| run_items(d, cx)),
             Sub::tape("thick_joins", 64, 100_000, 5_000_000, thick_joins),
+            Sub::tape("large_joins", 40, 800, 40_000, large_joins),
             Sub::tape("large", 64, 3_000, 150_000, large),
             Sub::tape("primitives_queries", 48, 100_000, 5_000_000, queries).with_fp(),
             Sub::tape("real_arithmetic", 64, 60_000, 3_000_000, real_arithmetic).with_fp(),
@@ -239,13 +240,52 @@ fn large(d: &mut Dec, cx: &mut Cx) -> Res {
     type C = Rgb565;
     let kind = d.u(0, 7);
     let st = gen::style::<C>(d, 24);
-    let item: Item<C> = Item::Styled(gen::large_shape(d, kind, 100, 300), st);
+    // (one large triangle in six spans up to 1024 px: joins whose arithmetic leaves 32 bits)
+    let hi = if kind == 4 && d.aux_u(7, 0, 5) == 5 { 1024 } else { 300 };
+    let item: Item<C> = Item::Styled(gen::large_shape(d, kind, 100, hi), st);
     let by = match d.u(0, 2) {
         0 => offset(d, item.bounding_box().top_left),
         _ => Point::new(d.i(-300, 300), d.i(-300, 300)),
     };
     cx.describe(|| format!("{} translate by {:?}", item.desc(), by));
     cx.class(item.kind());
+    let n = check_item_translation(&item, by)?;
+    cx.nontrivial(by != Point::zero() && n >= 2);
+    Ok(())
+}
+
+
+/// Thick outlines (no fill) of triangles and open polylines whose edges are 400..=1100 px long and have small
+/// rational slopes, so that stroke edges meet exactly on half pixels; offsets up to +-1100. The rounding of
+/// a join must not depend on where the shape sits, also where the arithmetic leaves 32 bits.
+fn large_joins(d: &mut Dec, cx: &mut Cx) -> Res {
+    type C = Rgb565;
+    const V: [(i32, i32); 14] = [(1, 2), (2, 1), (1, 3), (3, 1), (2, 3), (3, 2), (1, 1), (1, -2), (2, -1), (1, -1), (1, 0), (0, 1), (1, 4), (4, 1)];
+    let a = Point::new(d.i(-1100, 1100), d.i(-1100, 1100));
+    let mut leg = |d: &mut Dec| {
+        let v = V[d.idx(V.len())];
+        let unit = v.0.abs().max(v.1.abs());
+        let k = d.i(400 / unit, 1100 / unit);
+        let (sx, sy) = (if d.bool() { 1 } else { -1 }, if d.bool() { 1 } else { -1 });
+        Point::new(sx * v.0 * k, sy * v.1 * k)
+    };
+    let (b, c) = (a + leg(d), a + leg(d));
+    let width = d.u(2, 8);
+    let mut style = PrimitiveStyle::<C>::with_stroke(C::nth(2), width);
+    style.stroke_alignment = gen::alignment(d);
+    let item: Item<C> = if d.bool() {
+        cx.class("triangle");
+        Item::Styled(Shape::Triangle(embedded_graphics::primitives::Triangle::new(a, b, c)), style)
+    } else {
+        cx.class("polyline");
+        Item::Polyline(PolyItem { pts: vec![b, a, c], offset: Point::zero(), style })
+    };
+    let by = match d.u(0, 2) {
+        0 => Point::new(-a.x + d.i(-3, 3), -a.y + d.i(-3, 3)),
+        1 => Point::new(d.i(-1100, 1100), 0),
+        _ => Point::new(d.i(-1100, 1100), d.i(-1100, 1100)),
+    };
+    cx.describe(|| format!("{} translate by {:?}", item.desc(), by));
     let n = check_item_translation(&item, by)?;
     cx.nontrivial(by != Point::zero() && n >= 2);
     Ok(())
